@@ -474,8 +474,7 @@ def _frag_jp(repo):
         raise Unrecognised("__init__")
     years_sorted, passes_prev, totals = _generate_asset(cls)
     y = _generate_asset_year(cls, passes_prev)
-    if passes_prev != y["prev_existing"]:
-        raise Unrecognised("previous_year is passed but not used for the sheet name (or the reverse)")
+    # (previous_year handed over but the name still built from `year - 1`: recognised, prev_existing = false)
     # templates: identical geometry in every shipped language
     tmpl = None
     for lang in LANGS:
